@@ -129,6 +129,31 @@ def corrupt_scenarios(rnd, quick):
     return scns
 
 
+def naive_index_part(chk, rnd):
+    """single-erasure back-end: its legal range ends at count + parity capacity; indices beyond it (and 0) at random positions"""
+    from . import v1
+    def bad(n, pcap):
+        top = n + pcap
+        pool = [0, top + 1, top + 1, top + 2, 1 << 14, 1 << 16, 0xFFFFFFFF, rnd.randint(top + 1, 0xFFFFFFFF)]
+        return [x for x in rnd.sample(pool, rnd.randint(1, 3)) if x == 0 or x > top]
+    for ffr in (False, True):
+        scns = [v1.build(rnd, "naive", ffr=ffr, with_prior=False, bad=bad) for _ in range((60 if chk.quick() else 2500) // (3 if ffr else 1))]
+        lines, impl, outs = v1.run(chk, scns, "naive", ffr=ffr, stream="naive-index%s" % ("-ffr" if ffr else ""))
+        nt, dist = [], {"illegal_indices": 0, "one_past_the_last_parity": 0}
+        for s, l, raw, out in zip(scns, lines, impl, outs):
+            if len(out) != len(s.ops):
+                chk.failures.append(core.Failure("harness produced no / truncated result (crash or hang)", "session", "naive", l, raw[-300:], key="crash")); break
+            me = s.meta
+            top = me["n"] + me["pcap"]
+            dist["illegal_indices"] += sum(1 for i in me["seq"] if i == 0 or i > top); dist["one_past_the_last_parity"] += sum(1 for i in me["seq"] if i == top + 1)
+            if any(out[i][0] == "panic" for i in me["seg_ops"]):
+                chk.failures.append(core.Failure("handle_segment panics (single-erasure back-end)", "session", "naive-ffr" if ffr else "naive", l, raw[:2000], key="c17")); continue
+            for msg in v1.oracle(s, out, "naive")[:1]:
+                chk.failures.append(core.Failure("[single-erasure back-end] " + msg, "session", "naive-ffr" if ffr else "naive", l, raw[:2000], key="c17"))
+            nt.append(l)
+        chk.note_cases("naive-index%s" % ("-ffr" if ffr else ""), lines, nt, sample_n=1, dist=dist)
+
+
 def run(chk):
     chk.prove()
     rnd = random.Random(chk.seed)
@@ -163,8 +188,9 @@ def run(chk):
             nt.append(l)
             if len(chk.failures) > 10: break
         chk.note_cases("session-corrupt[%s]" % variant, lines, nt, sample_n=1, dist=dist)
+    naive_index_part(chk, random.Random(chk.seed + 17))
     return chk.finish(level="proof",
-        rule="session-index: a fragment with index in {0, 1, n, n+1, 2^14, 2^16, 2^32-1, n+1240005543 (u32 seed overflow), random} (consistent payload for legal indices) inserted at every position (sampled) of delivery scenarios, "
+        rule="naive-index: the single-erasure back-end (default and force-full-r) with indices 0, count+capacity+1, +2, 2^14, 2^16, 2^32-1, random beyond the range at random positions of V1 deliveries (rejected, nothing programmed, peeling outcome unchanged); session-index: a fragment with index in {0, 1, n, n+1, 2^14, 2^16, 2^32-1, n+1240005543 (u32 seed overflow), random} (consistent payload for legal indices) inserted at every position (sampled) of delivery scenarios, "
              "overflow-checked, release and force-full-r builds; session-corrupt: per-slot headers from legal / boundary / junk field values, random bytes, a well-formed newest pair with adversarial counts (parity count 2047..16384) and garbage status tables / matrix diagonals, "
              "slot sizes 17664 B .. 1 MiB, then every public call in random order; non-trivial = every case; distinct by case text",
         trusted=core.TRUSTED_COMMON + ["C17: 64-bit usize (the host); the 32-bit usize of the real target cannot be run here",
